@@ -1,8 +1,7 @@
 (* C05 — lemmas, part E: the in-memory filter stays in sync with the head (mem_sync) through every
-   operation other than Restart; hence for restart-free histories the window clause of ops_ok holds
-   by itself. *)
+   operation other than Restart. *)
 From Coq Require Import List NArith Bool Lia ZifyN ZifyNat ZifyBool.
-From V Require Import C05.Model C05.Proofs_A C05.Proofs_B C05.Proofs_C C05.Proofs_D.
+From V Require Import C05.Model C05.Proofs_A C05.Proofs_B C05.Proofs_C.
 Import ListNotations.
 Open Scope N_scope.
 
@@ -114,33 +113,21 @@ Proof.
     (* no WHeight in a prune plan *)
     unfold prune_plan. destruct (floor d); [|constructor]. destruct (e <=? n); [constructor|].
     assert (Hpb : forall cnt k carry, Forall (fun w => match w with WHeight _ => False | _ => True end) carry ->
-              Forall (Forall (fun w => match w with WHeight _ => False | _ => True end)) (fst (prune_blocks d e k cnt carry))).
+              Forall (Forall (fun w => match w with WHeight _ => False | _ => True end)) (fst (prune_blocks d keep_hist e k cnt carry))).
     { induction cnt; simpl; intros k carry Hc; [constructor|].
       destruct (find_num k (d_fam d FSU)); [|constructor].
-      specialize (IHcnt (k + 1) [] ltac:(constructor)). destruct (prune_blocks d e (k + 1) cnt []). simpl in *.
-      constructor; auto. apply Forall_app. split; auto. destruct (k + 1 =? e); repeat constructor. }
+      specialize (IHcnt (k + 1) [] ltac:(constructor)). destruct (prune_blocks d keep_hist e (k + 1) cnt []). simpl in *.
+      constructor; auto. apply Forall_app. split; auto. destruct (k + 1 =? e); destruct keep_hist; repeat constructor. }
     assert (Hg : forall cw, Forall (fun w => match w with WHeight _ => False | _ => True end) cw ->
        Forall (Forall (fun w => match w with WHeight _ => False | _ => True end))
-         (let (bs, ok) := prune_blocks d e n (N.to_nat (e - n)) cw in if ok then bs ++ [[]; prune_data_batch W e] else bs)).
+         (let (bs, ok) := prune_blocks d keep_hist e n (N.to_nat (e - n)) cw in if ok then bs ++ [[]; prune_data_batch W e] else bs)).
     { intros cw Hcw. specialize (Hpb (N.to_nat (e - n)) n cw Hcw).
-      destruct (prune_blocks d e n (N.to_nat (e - n)) cw) as [bs ok]. simpl in Hpb. destruct ok; auto.
+      destruct (prune_blocks d keep_hist e n (N.to_nat (e - n)) cw) as [bs ok]. simpl in Hpb. destruct ok; auto.
       apply Forall_app. split; auto. constructor; [constructor|]. constructor; [|constructor]. unfold prune_data_batch.
       apply Forall_app. split; [repeat constructor|]. destruct (e <? W); repeat constructor. }
     destruct (0 <? n); [destruct (header d (n - 1)); [apply Hg; repeat constructor|constructor]|apply Hg; constructor].
   - exact Hs.
   - unfold step. cbn [fst snd plan]. destruct (rf_err m); exact Hs.
-Qed.
-
-(* for restart-free histories starting in sync, ops_ok is implied by its environmental part *)
-Lemma env_implies_ok : forall W ops st, 0 < W -> mem_sync W (fst st) (snd st) = true ->
-  (forall o, In o ops -> is_restart o = false) ->
-  ops_env W ops st = true -> ops_ok W ops st = true.
-Proof.
-  induction ops; simpl; intros st HW Hs Hnr He; auto.
-  apply andb_true_iff in He as [E1 E2]. apply andb_true_iff. split.
-  - destruct a; simpl in *; auto. destruct (d_height (fst st)); auto. rewrite Hs, E1.
-    rewrite orb_true_r. reflexivity.
-  - apply IHops; auto. apply sync_step; auto.
 Qed.
 
 Lemma sync_aligned : forall W d m, 0 < W -> mem_sync W d m = true -> rf_aligned W m = true.
@@ -151,12 +138,3 @@ Proof.
   - apply N.mod_0_l. lia.
 Qed.
 
-Lemma crash_consistent_restart_free : forall W ops k st, 0 < W ->
-  consistent W (fst st) = true -> mem_sync W (fst st) (snd st) = true ->
-  (forall o, In o ops -> is_restart o = false) -> ops_env W ops st = true ->
-  consistent W (fst (exec_crash W ops k st)) = true.
-Proof.
-  intros W ops k st HW Hc Hs Hnr He. apply crash_consistent; auto.
-  - split; auto. eapply sync_aligned; eauto.
-  - apply env_implies_ok; auto.
-Qed.
